@@ -36,7 +36,7 @@ CHECKS = {
    "dual connector compared only where the sum of absolute costs fits 16 bits (the statement's condition); '*' never listed in bigram.cost",
    "bounded exhaustive enumeration of key sets and models against a string-level reference"),
  "C09": ("E4 crash-point enumerator", "4.C09",
-   "Every strict prefix (all ~2.6e5 offsets) of the images of 6 dictionaries (matrix/raw/dual, plain and with user lexicon + mapper) is fed to Dictionary::read through a whole-slice reader and short-read readers; every single-byte substitution of the magic and 5 foreign headers: all must return Err without panic.",
+   "Every strict prefix (all ~2.6e5 offsets) of the images of 6 dictionaries (matrix/raw/dual, plain and with user lexicon + mapper) is fed to Dictionary::read through a whole-slice reader and short-read readers; every single-byte substitution of the magic (all 255 other values at each of the 21 positions), every one-byte deletion, neighbour exchange and 7 one-byte insertions per position, and 5 foreign headers: all must return Err without panic.",
    "a Write sink can only append, so an interrupted write leaves exactly a prefix; streams that start with the current magic but continue with garbage are outside the statement",
    "exhaustive crash-point (prefix) enumeration"),
  "C10": ("E4 byte-string / edit enumerator + E1", "4.C10",
@@ -60,11 +60,11 @@ CHECKS = {
    "the CRF optimiser is the environment; rucrf merge() trusted; float costs accepted within one unit only at integer boundaries",
    "bounded exhaustive enumeration of training configurations and injected weight vectors against a recomputed image"),
  "C15": ("E2 over E6", "4.C15",
-   "For a slice of the trained family, every history of <= 3/4 ops over {generate, generate-bigram, write_model->read_model, add user lexicon x2} is executed on a freshly trained model; from the first round trip on, the in-memory model and its reloaded twin are compared file by file at every generation (bigram.cost as a multiset), and repeated generation must be stable.",
+   "For every second / every model of the trained family without configured user lexicons, the whole tree of histories of <= 3/4 ops over {generate, generate-bigram, write_model->read_model, add user lexicon x3} plus a final generation is explored depth-first; a node is reached by copying its parent's models field by field (hook verif_twin, not the model codec; bound to the code per model by driving original and copy through the same operations); from the first round trip on, the in-memory model and its reloaded twin are compared file by file at every generation (bigram.cost as a multiset), and repeated generation must be stable.",
    "user lexicons added before a round trip are not persisted by write_model, so user.csv is not compared for those histories",
    "explicit-state exploration of operation histories with a bisimulation oracle"),
  "C16": ("E6 + conn-cost hook", "4.C16",
-   "For every trained model of the C14 family and every injected weight vector, the emitted bigram files are compiled with the raw and the dual connector and matrix.def with the matrix connector; every id pair incl. row/column 0 must agree within K+1 and the dimensions must be equal. A discrepancy is attributed to the recorded finding K3 only if the real table equals the string-level sum in which '*' is an ordinary feature and the sum over the model's true feature tuples is within K+1 of matrix.def.",
+   "For every trained model of the C14 family and every injected weight vector, the emitted bigram files are compiled with the raw and the dual connector and matrix.def with the matrix connector; every id pair incl. row/column 0 must agree within K+1 and the dimensions must be equal; the compiled raw/dual dictionary is then id-mapped (rotation on both sides) and must still agree with the equally permuted matrix.def. A discrepancy is attributed to the recorded finding K3 only if the real table equals the string-level sum in which '*' is an ordinary feature and the sum over the model's true feature tuples is within K+1 of matrix.def.",
    "K3 (literal '*' feature) and K6 (rucrf panic on an empty bigram table) are recorded findings",
    "bounded exhaustive enumeration of training configurations with a cross-compilation oracle"),
  "C17": ("product enumeration + rewrite hook", "4.C17",
